@@ -1,8 +1,24 @@
-import DarkluaModel.Util.Sexp
-/-! Line-protocol handlers for property C01 (stub: nothing modelled yet). -/
+import DarkluaModel.Shared.AstSexp
+import DarkluaModel.Rules.EmptyDo
+/-! Line-protocol handlers for property C01: `c01.rule <rule-name-hex> <block>` → block -/
 namespace DarkluaModel.C01
 
-def handle (op : String) (_args : List String) : String :=
-  "unknown-op " ++ op
+/-- the modelled default rules, by darklua rule name -/
+def applyRule (name : String) (b : Block) : Option Block :=
+  match name with
+  | "remove_empty_do" => some (Rules.EmptyDo.apply b)
+  | _ => none
+
+def handle (op : String) (args : List String) : String :=
+  match op, Sexp.parseArgs args with
+  | "rule", some [name, block] =>
+    match nameOfSexp? name, Block.ofSexp? block with
+    | some n, some b =>
+      match applyRule n b with
+      | some b' => b'.toSexp.toString
+      | none => "unknown-rule"
+    | _, _ => "bad-request"
+  | "rules", _ => "remove_empty_do"
+  | _, _ => "unknown-op " ++ op
 
 end DarkluaModel.C01
